@@ -356,7 +356,7 @@ theorem C17_order (d : Dec ε σ) :
     | cons c cs ih => simp [feedAll, ih, happ]
 
 /-- a byte-per-event decoder is independent of read boundaries -/
-example : let d : Dec Nat Unit := ⟨fun s bs => (s, bs), fun _ => false, fun _ => false, fun _ => (false, [])⟩
+example : let d : Dec Nat Unit := ⟨fun s bs => (s, bs), fun _ => false, fun _ => false, fun _ => false, fun _ => (false, [])⟩
     (∀ s, d.feed s [] = (s, [])) ∧
     ∀ s a b, d.feed s (a ++ b) = ((d.feed (d.feed s a).1 b).1, (d.feed s a).2 ++ (d.feed (d.feed s a).1 b).2) :=
   ⟨fun _ => rfl, fun _ _ _ => rfl⟩
@@ -524,6 +524,88 @@ example :
       ⟨0, [⟨0, .ready false false true false, .again, [], true, .again,
         .bytes [27, 91, 56, 59, 53, 48, 59, 49, 51, 50, 116, 27, 91, 52, 59, 49, 59, 49, 116]⟩]⟩).pushed = [.resize, .input .size] := by
   decide
+
+/-! ## C17_position -/
+
+/-- not one of the two reports `position` consumes itself -/
+def notSync (d : Dec ε σ) (e : Ev ε) : Bool := !isSync d e
+
+theorem positionLoop_inv (d : Dec ε σ) (E : List (Ev ε)) (envs : List PollEnv) (st : St ε σ)
+    (aside pushed taken : List (Ev ε))
+    (h1 : E ++ pushed = taken ++ st.evq) (h2 : aside = taken.filter (notSync d)) :
+    let r := positionLoop d envs st aside pushed taken
+    ∃ rem, E ++ r.pushed = r.taken ++ rem ∧
+      (r.res ≠ .blocked → r.st.evq = r.taken.filter (notSync d) ++ rem) := by
+  induction envs generalizing st aside pushed taken with
+  | nil => exact ⟨st.evq, h1, fun h => by simp [positionLoop] at h⟩
+  | cons env rest ih =>
+    have hf := poll_fifo d st none env
+    have hns := poll_none_some d st env
+    simp only [positionLoop]
+    generalize hp : poll d st none env = r at hf hns
+    have base : ∀ x, r.res = x → E ++ (pushed ++ r.pushed) = taken ++ (delivered x ++ r.st.evq) := by
+      intro x hx
+      rw [← List.append_assoc, h1, List.append_assoc, hf, hx]
+    cases hres : r.res with
+    | blocked => exact ⟨r.st.evq, by simpa [delivered] using base _ hres, fun h => by simp at h⟩
+    | err e => exact ⟨r.st.evq, by simpa [delivered] using base _ hres, fun _ => by simp [h2]⟩
+    | ok o =>
+      cases o with
+      | none => exact absurd hres hns
+      | some e =>
+        have b := base _ hres
+        simp only [delivered] at b
+        cases e with
+        | input x =>
+          simp only
+          by_cases hda : d.isDA x = true
+          · simp only [hda, ↓reduceIte]
+            refine ⟨r.st.evq, by simpa using b, fun _ => ?_⟩
+            have : notSync d (.input x) = false := by simp [notSync, isSync, hda]
+            simp [h2, List.filter_append, this]
+          · simp only [hda, Bool.false_eq_true, ↓reduceIte]
+            by_cases hc : d.isCpr x = true
+            · simp only [hc, ↓reduceIte]
+              refine ih r.st aside (pushed ++ r.pushed) (taken ++ [.input x]) (by simpa using b) ?_
+              have : notSync d (.input x) = false := by simp [notSync, isSync, hc]
+              simp [h2, List.filter_append, this]
+            · simp only [hc, Bool.false_eq_true, ↓reduceIte]
+              refine ih r.st (aside ++ [.input x]) (pushed ++ r.pushed) (taken ++ [.input x]) (by simpa using b) ?_
+              have : notSync d (.input x) = true := by simp [notSync, isSync, hda, hc]
+              simp [h2, List.filter_append, this]
+        | wake =>
+          refine ih r.st (aside ++ [.wake]) (pushed ++ r.pushed) (taken ++ [.wake]) (by simpa using b) ?_
+          simp [h2, List.filter_append, notSync, isSync]
+        | resize =>
+          refine ih r.st (aside ++ [.resize]) (pushed ++ r.pushed) (taken ++ [.resize]) (by simpa using b) ?_
+          simp [h2, List.filter_append, notSync, isSync]
+
+/-- **C17_position.** `position()` polls the terminal itself and sets every event other than the cursor-position
+report and the device-attributes answer aside.  For every terminal state and every sequence of environment answers
+to its inner polls, whenever it returns — with the position, or with an error of an inner poll (e.g. `Err(Quit)`) —
+the event queue afterwards is: the events queued before and during the call, in their original (arrival) order,
+minus only the sync reports `position` took itself (`taken.filter notSync ++ rem` where `taken ++ rem` is the
+original order and `taken` are the events its polls handed out).  No wake-up, key or resize is lost or overtaken by
+a later one, whatever arrives in the same read as the answer.  (The inner polls have no time-out; such a poll never
+returns `Ok(None)`: `poll_none_some`.) -/
+theorem C17_position (d : Dec ε σ) (st : St ε σ) (envs : List PollEnv) :
+    let r := position d st envs
+    ∃ rem, st.evq ++ r.pushed = r.taken ++ rem ∧
+      (r.res ≠ .blocked → r.st.evq = r.taken.filter (notSync d) ++ rem) ∧
+      (∀ st' env, (poll d st' none env).res ≠ .ok none) := by
+  obtain ⟨rem, h1, h2⟩ := positionLoop_inv d st.evq envs
+    { st with wq := (st.wq.write cursorGet).write deviceAttrs } [] [] [] (by simp) (by simp)
+  exact ⟨rem, h1, h2, fun st' env => poll_none_some d st' env⟩
+
+/-- key `a` is read before the answer and set aside; the answer arrives in one read together with key `b`:
+afterwards the queue holds `a`, then `b` (it used to be `b`, `a`) -/
+example :
+    (position simpleDec ⟨WQ.new, [], [], false⟩
+      [⟨0, [⟨0, .ready false false false true, .n 99, [], true, .again, .again⟩,
+            ⟨0, .ready false false true true, .n 0, [], true, .again, .bytes [97]⟩]⟩,
+       ⟨0, [⟨0, .ready false false true false, .again, [], true, .again,
+              .bytes [27, 91, 53, 59, 55, 82, 27, 91, 63, 54, 50, 59, 52, 99, 98]⟩]⟩,
+       ⟨0, []⟩]).st.evq = [.input (.key 97), .input (.key 98)] := by decide
 
 /-! ## C17_bounded_partial -/
 
